@@ -70,7 +70,12 @@ def main(argv=None) -> int:
     if a.all:
         rc = 0
         for p in PROPS:
-            r = run_property(p, a.repo, a.tier, seed, write_evidence=not a.no_evidence)
+            if a.tier == "thorough":
+                from .selftest import run_thorough
+
+                r = run_thorough(p, a.repo, seed, write_evidence=not a.no_evidence)
+            else:
+                r = run_property(p, a.repo, a.tier, seed, write_evidence=not a.no_evidence)
             rc = max(rc, r)
         return rc
     if not a.prop:
